@@ -5,7 +5,7 @@ import sys
 sys.path.insert(0, os.path.dirname(os.path.abspath(__file__)))
 from pylite import Unit, Refuse  # noqa: E402
 
-REPO = '/repo'
+REPO = os.path.realpath(os.environ.get('VERIF_REPO', '/repo'))
 Z2 = ('tup', 'Z', 'Z')
 
 
@@ -35,6 +35,14 @@ UNITS = {
     'ConstantTime': constanttime_unit,
 }
 
+# further units live in translator/units_<name>.py, each exporting UNITS = {name: thunk}
+# where thunk() returns an object with .translate() -> Gallina text (may raise Refuse)
+import glob as _glob
+import importlib as _importlib
+for _p in sorted(_glob.glob(os.path.join(os.path.dirname(os.path.abspath(__file__)), 'units_*.py'))):
+    _m = _importlib.import_module(os.path.basename(_p)[:-3])
+    UNITS.update(_m.UNITS)
+
 
 def generate(name, coq_dir):
     """Returns (ok, message).  Writes coq/Gen/<name>.v when the text changed."""
@@ -43,6 +51,10 @@ def generate(name, coq_dir):
     try:
         text = UNITS[name]().translate()
     except Refuse as e:
+        try:
+            os.unlink(path)         # never leave a stale model behind
+        except OSError:
+            pass
         return False, 'translator refused %s: %s' % (name, e)
     except SyntaxError as e:
         return False, 'source does not parse: %s' % e
